@@ -17,6 +17,7 @@ import (
 	proto "github.com/kubewharf/kubebrain-client/api/v2rpc"
 
 	"github.com/kubewharf/kubebrain/pkg/backend"
+	"github.com/kubewharf/kubebrain/pkg/server/service"
 	"github.com/kubewharf/kubebrain/pkg/server/service/leader"
 	"github.com/kubewharf/kubebrain/pkg/storage"
 )
@@ -259,10 +260,11 @@ func runC15(ci interface{}, st *CaseStats) error {
 	// a request that arrives exactly while the election hands the initial revision to the backend: if the node already
 	// reports itself leader at that instant, the request is served (as a handler would) before the revision is set
 	var le leader.LeaderElection
+	var gate service.PeerService
 	var handoverRev uint64
 	var handoverServed bool
 	wrapped := &c15Backend{Backend: newB, beforeSet: func() {
-		if le != nil && le.IsLeader() {
+		if gate != nil && gate.IsLeader() {
 			r, err := newB.Create(context.Background(), &proto.CreateRequest{Key: []byte(fmt.Sprintf("%s/handover-%d", Prefix, c15Seq)), Value: []byte("h")})
 			if err == nil && r.Succeeded {
 				handoverServed, handoverRev = true, r.Header.Revision
@@ -270,6 +272,8 @@ func runC15(ci interface{}, st *CaseStats) error {
 		}
 	}}
 	le = leader.NewLeaderElection(wrapped, NopMetrics, func(context.Context) { started <- struct{}{} }, func() {})
+	// the gate the request handlers consult is the peer service's IsLeader (wired as server.NewServer does)
+	gate = service.NewPeerService(le, NopMetrics, wrapped, service.Config{})
 	// request handlers check IsLeader() and then write: clients that hammer the node get through the moment it
 	// reports itself leader
 	type eagerRes struct {
@@ -289,7 +293,7 @@ func runC15(ci interface{}, st *CaseStats) error {
 					return
 				default:
 				}
-				if le.IsLeader() {
+				if gate.IsLeader() {
 					r, err := newB.Create(context.Background(), &proto.CreateRequest{Key: []byte(fmt.Sprintf("%s/eager-%d-%d", Prefix, c15Seq, w)), Value: []byte("e")})
 					res := eagerRes{w: w, err: err}
 					if r != nil {
